@@ -77,4 +77,29 @@ prop("C04",
      runs=[dict(name="h_vector", sources=["harness/h_vector.c"], profile="asan",
                 args={"quick": ["--values=3", "--mult=2", "--S=4"], "thorough": ["--values=4", "--mult=3", "--S=7"]})],
      deadline={"quick": 200, "thorough": 3000})
+
+
+prop("C12",
+     level="exploration",
+     technique="bounded exhaustive input enumeration (E2) of all strings over an 8-symbol quoting alphabet x delimiter sets against a reference tokenizer and word grammar; exact-size heap inputs under ASan",
+     rule="every string of length <= N over {a,b,space,comma,dquote,squote,backslash,tab} is split with three delimiter sets, tokenised by the tok class (twice), and run through "
+          "num_words/get_word/get_pword for every index 0..num_words+2, each compared with the reference grammar; plus all join/split round trips of <= 4 plain tokens; "
+          "non-trivial = inputs with a quote, a backslash or more than one token (counted per delimiter set)",
+     bounds={"quick": "N=5 (37449 strings)", "thorough": "N=8 (19.2 M strings)"},
+     runs=[dict(name="h_tokens", sources=["harness/h_tokens.c"], profile="asan", args={"quick": ["--N=5"], "thorough": ["--N=8"]})],
+     deadline={"quick": 200, "thorough": 3000})
+
+
+prop("C17",
+     level="exploration",
+     technique="bounded exhaustive enumeration (E2) of all ordered pairs of fragment strings with a stack-fill differential for determinism, ASan/UBSan for safety, and the statement's ordering laws on all pairs of generated well-formed versions",
+     rule="all ordered pairs (x,y) of strings of <= N fragments over the fragment alphabet: compare(x,y) is run under two stack fills and compare(y,x) once; checks: termination, "
+          "sanitizer silence, determinism, antisymmetry, reflexivity; all ordered pairs of well-formed versions: the four ordering laws where they apply; "
+          "non-trivial = pairs that compare unequal / well-formed pairs to which a law applies",
+     bounds={"quick": "21+12 fragments, <=2 per side (1.19 M pairs); well-formed: 3 numbers (3.8 M pairs)",
+             "thorough": "same + 14-fragment core, <=3 per side (8.7 M pairs); well-formed: 5 numbers (81 M pairs)"},
+     runs=[dict(name="h_vercmp", sources=["harness/h_vercmp.c"], profile="asan", args={"quick": ["--frags=2", "--nn=3"], "thorough": ["--frags=2", "--nn=5"]}),
+           dict(name="h_vercmp_plain", sources=["harness/h_vercmp.c"], profile="plain0", args={"quick": ["--frags=2", "--nn=3"], "thorough": ["--frags=2", "--nn=4"]}),
+           dict(name="h_vercmp_core", sources=["harness/h_vercmp.c"], profile="asan", tiers=("thorough",), args={"thorough": ["--frags=3", "--core=1"]})],
+     deadline={"quick": 240, "thorough": 3000})
 NOT_CLAIMED = {}
